@@ -68,6 +68,7 @@ import SpectraVerif.Proofs.C09SimEig
 import SpectraVerif.Proofs.C09SimU
 import SpectraVerif.Proofs.C09SchurMain
 import SpectraVerif.Proofs.C09EigMain
+import SpectraVerif.Proofs.C09Reuse
 import Mathlib.Analysis.Real.Sqrt
 import SpectraVerif.Gen.Wilk
 
@@ -963,5 +964,70 @@ theorem c09_householder_kernel {R : Type} [CommRing R] (v1 v2 tau x0 x1 x2 : R) 
       (x0 - tau * 1 * (1 * x0 + v1 * x1 + v2 * x2),
        x1 - tau * v1 * (1 * x0 + v1 * x1 + v2 * x2),
        x2 - tau * v2 * (1 * x0 + v1 * x1 + v2 * x2)) := hhKernel_spec v1 v2 tau x0 x1 x2
+
+/-! ### reuse of ONE decomposition object (`Model/C09Object.lean`, compared with the real classes on whole histories by the `hist` stream)
+
+  All histories, all sizes, any scalar type, every floating comparison an arbitrary boolean.  The object models keep every member the C++
+  keeps and write it exactly where `compute()` writes it; the accessors are pure functions of the state. -/
+section reuse
+variable {α : Type} [Add α] [Sub α] [Mul α] [Div α] [Neg α] [Sc α]
+open C09Obj C09Reuse
+
+/-- **No history is visible after a `compute` that returns.**  Whatever was done to the object before (any list of `compute`s that returned or
+    threw, non-square calls, `swap_T`/`swap_U` with arbitrary matrices), a `compute(M)` that returns on a fresh object returns on the used one
+    and leaves EVERY member — hence the answer of every accessor, in any order, any number of times — equal to the fresh object's. -/
+theorem c09_reuse_history_trideig (hs : List (TriOp α)) (n : Nat) (d e : Vec α)
+    (hok : ((Tri.fresh : Tri α).compute n d e).2 = none) :
+    (hs.foldl Tri.step (Tri.fresh : Tri α)).compute n d e = (Tri.fresh : Tri α).compute n d e := tri_history hs n d e hok
+theorem c09_reuse_history_schur (hs : List (SchOp α)) (n : Nat) (h : Mat α)
+    (hok : ((Sch.fresh : Sch α).compute n h).2 = none) :
+    (hs.foldl Sch.step (Sch.fresh : Sch α)).compute n h = (Sch.fresh : Sch α).compute n h := sch_history hs n h hok
+theorem c09_reuse_history_hesseig (hs : List (EigOp α)) (n : Nat) (h : Mat α)
+    (hok : ((Eig.fresh : Eig α).compute n h).2 = none) :
+    (hs.foldl Eig.step (Eig.fresh : Eig α)).compute n h = (Eig.fresh : Eig α).compute n h := eig_history hs n h hok
+
+/-- whether `compute(M)` throws, and what, never depends on the object's past -/
+theorem c09_reuse_throw_indep (ot : Tri α) (os : Sch α) (oe : Eig α) (n : Nat) (d e : Vec α) (h : Mat α) :
+    (ot.compute n d e).2 = ((Tri.fresh : Tri α).compute n d e).2 ∧ (os.compute n h).2 = ((Sch.fresh : Sch α).compute n h).2
+      ∧ (oe.compute n h).2 = ((Eig.fresh : Eig α).compute n h).2 :=
+  ⟨tri_throw_indep ot n d e, sch_throw_indep os n h, eig_throw_indep oe n h⟩
+
+/-- **The accessors of a reused object return the results of the one-shot models** — so everything above in this file (exit conditions,
+    quasi-triangular `T`, conjugate pairing, similarity) holds for the numbers a reused object hands out. -/
+theorem c09_reuse_accessors (ot : Tri α) (os : Sch α) (oe : Eig α) (n : Nat) (d e : Vec α) (h : Mat α) :
+    (∀ r, TridiagEigen.compute n d e = Res.ok r →
+        (ot.compute n d e).2 = none ∧ (ot.compute n d e).1.eigenvalues = Res.ok (TridiagEigen.eigenvalues r)
+          ∧ (ot.compute n d e).1.eigenvectors = Res.ok (TridiagEigen.eigenvectors r)) ∧
+    (∀ r, HessSchur.compute n h = Res.ok r →
+        (os.compute n h).2 = none ∧ (os.compute n h).1.matrix_T = Res.ok (HessSchur.matrix_T r)
+          ∧ (os.compute n h).1.matrix_U = Res.ok (HessSchur.matrix_U r)) ∧
+    (∀ r, HessEigen.compute n h = Res.ok r →
+        (oe.compute n h).2 = none ∧ (oe.compute n h).1.eigenvalues = Res.ok (HessEigen.eigenvalues r)
+          ∧ (oe.compute n h).1.eivec = r.eivec ∧ (oe.compute n h).1.computed = true) :=
+  ⟨fun r hr => tri_accessors ot n d e r hr, fun r hr => sch_accessors os n h r hr, fun r hr => eig_accessors oe n h r hr⟩
+
+/-- **After a `compute` that threw (iteration limit) every accessor throws `std::logic_error`**, whatever the object had computed before:
+    neither the unfinished iteration nor the previous matrix's results are handed out (`m_computed = false` at the start of `compute`). -/
+theorem c09_reuse_after_failure (ot : Tri α) (os : Sch α) (oe : Eig α) (n : Nat) (d e : Vec α) (h : Mat α) :
+    ((ot.compute n d e).2 ≠ none → (ot.compute n d e).1.eigenvalues = Res.throw (notComputed "TridiagEigen")
+        ∧ (ot.compute n d e).1.eigenvectors = Res.throw (notComputed "TridiagEigen")) ∧
+    ((os.compute n h).2 ≠ none → (os.compute n h).1.matrix_T = Res.throw (notComputed "UpperHessenbergSchur")
+        ∧ (os.compute n h).1.matrix_U = Res.throw (notComputed "UpperHessenbergSchur")) ∧
+    ((oe.compute n h).2 ≠ none → (oe.compute n h).1.eigenvalues = Res.throw (notComputed "UpperHessenbergEigen")
+        ∧ (oe.compute n h).1.eigenvectors = Res.throw (notComputed "UpperHessenbergEigen")) := by
+  refine ⟨fun hne => ?_, fun hne => ?_, fun hne => ?_⟩
+  · have hc := tri_failed_not_computed ot n d e hne
+    unfold Tri.eigenvalues Tri.eigenvectors; rw [hc]; exact ⟨rfl, rfl⟩
+  · have hc := sch_failed_not_computed os n h hne
+    unfold Sch.matrix_T Sch.matrix_U; rw [hc]; exact ⟨rfl, rfl⟩
+  · have hc := eig_failed_not_computed oe n h hne
+    unfold Eig.eigenvalues Eig.eigenvectors; rw [hc]; exact ⟨rfl, rfl⟩
+
+/-- the hypotheses are satisfiable: the zero matrix returns on every object -/
+example (o : Tri α) (n : Nat) (hz : Sc.lt (TridiagEigen.scaleOf (vzero n : Vec α) (vzero (n - 1))) (Sc.minPos * Sc.ofInt 10) = true) :
+    (o.compute n (vzero n) (vzero (n - 1))).2 = none := by
+  unfold Tri.compute; simp only []; rw [if_pos hz]
+
+end reuse
 
 end C09
